@@ -21,6 +21,7 @@
 -/
 import Aegean.Driver.Common
 import Aegean.Model.C08
+import Aegean.Model.C08Gen
 import Aegean.Spec.C08
 import Aegean.Proofs.C08Session
 
@@ -146,7 +147,7 @@ def tabSession (s : Session) : Session :=
 def runItem (s : Session) : List SessOp → Except SessErr (Session × List Obs)
   | [] => .ok (s, [])
   | op :: ops =>
-    match sessStep s op with
+    match sessStepGen s op with
     | .error e => .error e
     | .ok (s', o) =>
       match runItem (tabSession s') ops with
@@ -166,7 +167,7 @@ def runSItem (s : Aegean.Spec.C08.Sess) : List SessOp →
 
 def showOperand (ops : List SessOp) : String :=
   match ops with
-  | [.op op] => match operandAfter op with
+  | [.op op] => match operandAfterGen op with
     | some o => showState o
     | none => "-"
   | _ => "-"
